@@ -494,6 +494,20 @@ pub fn run(ctx: &Ctx) -> Outcome {
     let mut out = Outcome::new("model_checking");
     if let Some(art) = ctx.replay_case() {
         let case = &art["case"];
+        if let Some(cap) = case["root"].as_str().and_then(|r| r.strip_prefix("branch-profile/cap=")) {
+            let cap: &'static str = match cap {
+                "0" => "0",
+                "tiny" => "tiny",
+                _ => "large",
+            };
+            let sut = crate::c38_branch::BranchCaching { caps: vec![cap], executions: Default::default() };
+            match seqx::replay(&sut, case) {
+                Ok(v) => out.violations = v,
+                Err(e) => vcore::machinery_error(&format!("replay: {e}")),
+            }
+            out.set("states", 1u64).set("transitions", 1u64).set("traces_validated_against_impl", 1u64).set("samples", json!([case]));
+            return out;
+        }
         let cfg = case["root"].as_str().and_then(Cfg::parse).unwrap_or_else(|| vcore::machinery_error("replay: bad root label"));
         let sut = Caching { cfgs: vec![cfg], executions: Default::default() };
         match seqx::replay(&sut, case) {
@@ -532,6 +546,17 @@ pub fn run(ctx: &Ctx) -> Outcome {
         let sut = Caching { cfgs, executions: Default::default() };
         let rep = seqx::explore(&sut, &Caps { max_depth: depth, max_states: 5_000_000, wall_s: wall }, ctx.workers);
         profiles.push(json!({"roots": labels, "depth_bound": depth, "max_depth": rep.max_depth, "level_sizes": rep.level_sizes, "histories": rep.transitions, "cap_hit": rep.cap_hit,
+                             "bound_completed": if rep.cap_hit.is_none() { rep.max_depth } else { rep.max_depth.saturating_sub(1) }}));
+        execs += sut.executions.load(std::sync::atomic::Ordering::Relaxed);
+        total.merge(rep);
+    }
+    // branch profile: two branches sharing version numbers, dev reached through side A's long-lived main handle
+    {
+        let (caps, depth, wall): (Vec<&'static str>, usize, f64) = if ctx.quick() { (vec!["large"], 3, 14.0) } else { (vec!["large", "tiny", "0"], 4, 150.0) };
+        let sut = crate::c38_branch::BranchCaching { caps: caps.clone(), executions: Default::default() };
+        let rep = seqx::explore(&sut, &Caps { max_depth: depth, max_states: 5_000_000, wall_s: wall }, ctx.workers);
+        profiles.push(json!({"roots": caps.iter().map(|c| format!("branch-profile/cap={c}")).collect::<Vec<_>>(), "depth_bound": depth, "max_depth": rep.max_depth, "level_sizes": rep.level_sizes, "histories": rep.transitions, "cap_hit": rep.cap_hit,
+                             "alphabet": ["create_branch(dev from main v1)", "append on dev", "create_index on dev", "append on main", "create_index on main", "checkout_branch(dev) through the main handle"],
                              "bound_completed": if rep.cap_hit.is_none() { rep.max_depth } else { rep.max_depth.saturating_sub(1) }}));
         execs += sut.executions.load(std::sync::atomic::Ordering::Relaxed);
         total.merge(rep);
